@@ -127,6 +127,8 @@ class BitCrcRegisterBase(AbstractBitCrcRegister):
         See AbstractCrcRegister.update
         """
         if self._config.reverse_input_bytes:
+            # reflect a private copy, the caller's buffer must stay as it is
+            bits = bits.copy()
             bits.bytereverse()
 
         for start_bit in range(0, len(bits), self._config.feed_width_bits):
